@@ -106,6 +106,10 @@ POSITIONS = ["str", "opt", "union", "item", "key", "any", "any_nested"]
 COMMENT_POSITIONS = {"str", "key"}
 # json_indented differs from json only in white space: exercised at the positions where the text shape differs most
 INDENTED_POSITIONS = {"key", "any_nested"}
+# quick tier: the json text of a string is the same quoted scalar whatever the type of the argument; it is not re-read
+# at the two positions whose json text has the shape of the `str` position (the per-action serialisation, which does
+# depend on the type, is format independent and runs there through the yaml format)
+JSON_SAME_SHAPE_POSITIONS = {"opt", "union"}
 
 
 def _pos_type(pos):
@@ -153,6 +157,8 @@ def scalar_case(s, pos, mode="yaml", quick=True):
     results, details = {}, {}
     if quick and pos not in INDENTED_POSITIONS:
         formats = tuple(f for f in formats if f != "json_indented")
+    if quick and mode == "yaml" and pos in JSON_SAME_SHAPE_POSITIONS:
+        formats = tuple(f for f in formats if f not in JSON_FORMATS)
     variants = [(fmt, {"format": fmt}) for fmt in formats]
     if mode == "yaml" and pos in COMMENT_POSITIONS:
         variants.append(("yaml_comments", {"yaml_comments": True}))
